@@ -434,6 +434,8 @@ def rules(ctx):
                      "the accepted branch does not both flip state[%s] and recompute the cached dE for %s" % (idx, idx))
             dread = [a for a in f.assigns if a['lhs'] == d.get('energy') and a['rhs'] is not None]
             ok = bool(dread) and all(unparen(S(a['rhs'])) == 'flip_spin_dE[%s]' % idx and len(a['loops']) == 2 for a in dread)
+            if not dread and (d.get('energy') or '').replace(' ', '') == 'flip_spin_dE[%s]' % idx:
+                ok = True       # the acceptance test reads the cache entry directly
             ctx.inst('R12.4', (f.unit, sname), 'dE read from the cache', ok,
                      "dE is the cached value of the visited spin" if ok else "dE is not read from flip_spin_dE[%s] in the step" % idx)
             init = [c for c in f.calls if c['callee'] == 'compute_flip_dE' and not c['loops']]
